@@ -6,12 +6,16 @@ from harness import posetlib as PL
 ID = 'C10'
 COQ_IMPORTS = ['FCA.Corr.C10']
 CASE_TYPE = 'c10_case'
+COQ_HEADER = 'Set Printing Width 1000000.\n'   # Coq wraps long result lists; core's pair regex does not survive a wrap
 CHECK = 'c10_check'
 SHOW = 'c10_show'
 SHARD = 200
 RULE = ('case = (relation matrix on <= 8 carriers, two element lists with controlled overlap incl. prefix / '
         'sub-list shapes, cache flag per operand, a warm-up history per operand with queries AND mutations '
-        '(add with/without cache filling, delete/remove + re-add), operator in & | ^ -); compared: element '
+        '(add with/without cache filling, delete/remove + re-add), operand classes POSet / UpperSemiLattice / '
+        'LowerSemiLattice / Lattice, the comparison handed over as one function, as a bound method fetched '
+        'twice, as equal callable objects or as two different functions (must be refused), operator in '
+        '& | ^ -); compared: element '
         'list of the result (ordered), every query on the result, on the same operation evaluated a second '
         'time and on the operation with exchanged operands, every query on BOTH operands afterwards, deep '
         'equality of both operands before/after; '
@@ -36,17 +40,55 @@ def _apply(A, B, op):
     return A - B
 
 
+KINDS = {'P': 'None', 'U': '(Some KUpper)', 'L': '(Some KLower)', 'B': '(Some KLattice)'}
+
+
+class _Cmp:
+    """A comparison given as a callable object; two instances over the same matrix are ==."""
+    def __init__(self, m):
+        self.m = m
+
+    def __call__(self, a, b):
+        return self.m[a][b]
+
+    def __eq__(self, other):
+        return isinstance(other, _Cmp) and self.m == other.m
+
+    def __hash__(self):
+        return 0
+
+    def leq(self, a, b):
+        return self.m[a][b]
+
+
+def comparisons(case):
+    """(leq of A, leq of B) according to case['leq_mode']: one shared function object; the bound
+    method of one object fetched twice (== but not `is`); two equal callable objects; or two
+    genuinely different comparisons (which the operations must refuse)."""
+    m = case['matrix']
+    mode = case.get('leq_mode', 'same')
+    if mode == 'bound':
+        o = _Cmp(m)
+        return o.leq, o.leq
+    if mode == 'callable_eq':
+        return _Cmp(m), _Cmp([list(r) for r in m])
+    if mode == 'different':
+        return (lambda a, b: m[a][b]), (lambda a, b: m[a][b])     # two distinct function objects
+    f = lambda a, b: m[a][b]   # noqa
+    return f, f
+
+
 def run_impl(case):
     def go():
-        from fcapy.poset import POSet
-        m = case['matrix']
-        leq = lambda a, b: m[a][b]   # noqa
-        A = POSet(list(case['a']), leq, use_cache=case['cache_a'])
-        B = POSet(list(case['b']), leq, use_cache=case['cache_b'])
+        from fcapy.poset import POSet, UpperSemiLattice, LowerSemiLattice, Lattice
+        classes = {'P': POSet, 'U': UpperSemiLattice, 'L': LowerSemiLattice, 'B': Lattice}
+        leq_a, leq_b = comparisons(case)
+        A = classes[case.get('cls_a', 'P')](list(case['a']), leq_a, use_cache=case['cache_a'])
+        B = classes[case.get('cls_b', 'P')](list(case['b']), leq_b, use_cache=case['cache_b'])
         for o in case['warm_a']:
-            PL.apply_op(A, o, leq, POSet)
+            PL.apply_op(A, o, leq_a, POSet)
         for o in case['warm_b']:
-            PL.apply_op(B, o, leq, POSet)
+            PL.apply_op(B, o, leq_b, POSet)
         before = (PL.snapshot(A), PL.snapshot(B))
 
         def answers(f):
@@ -54,20 +96,51 @@ def run_impl(case):
                 R = f()
             except Exception as e:  # noqa
                 return PL.out_term(PL._x(e)), PL.outs_term([PL._x(e)])
+            if type(R) is not POSet:          # the algebra yields plain posets, whatever the operands' class
+                return PL.out_term(['x', 97]), PL.outs_term([['x', 97]])
             return (PL.out_term(['e', [int(x) for x in R.elements]]),
-                    PL.outs_term(PL.run_final(R, leq, POSet)))
+                    PL.outs_term(PL.run_final(R, leq_a, POSet)))
         # the operation, the same operation again, the operation with the operands exchanged:
         # an operand corrupted in place by the first shows in the later ones
         res, fin = answers(lambda: _apply(A, B, case['op']))
         _, fin2 = answers(lambda: _apply(A, B, case['op']))
         _, fin_rev = answers(lambda: _apply(B, A, case['op']))
         unchanged = (PL.snapshot(A), PL.snapshot(B)) == before
-        # every query on both operands afterwards (compact strings = Coq terms)
-        after_a = PL.outs_term(PL.run_final(A, leq, POSet))
-        after_b = PL.outs_term(PL.run_final(B, leq, POSet))
+        # every query on both operands afterwards (compact strings = Coq terms); operands of a
+        # semilattice class are asked through POSet's own methods (their tops/bottoms are overridden)
+        after_a = PL.outs_term(PL.run_final(_as_poset(A, POSet), leq_a, POSet))
+        after_b = PL.outs_term(PL.run_final(_as_poset(B, POSet), leq_b, POSet))
         return [res, unchanged, fin, fin2, fin_rev, after_a, after_b]
     r = guarded(go, timeout_s=30)
     return list(r)
+
+
+class _PosetView:
+    """Calls POSet's implementation of every method on an object of a subclass."""
+    def __init__(self, obj, POSet):
+        self._o, self._P = obj, POSet
+
+    def __len__(self):
+        return len(self._o)
+
+    @property
+    def elements(self):
+        return self._o.elements
+
+    @property
+    def tops(self):
+        return self._P.tops.fget(self._o)
+
+    @property
+    def bottoms(self):
+        return self._P.bottoms.fget(self._o)
+
+    def __getattr__(self, name):
+        return getattr(self._o, name)
+
+
+def _as_poset(obj, POSet):
+    return obj if type(obj) is POSet else _PosetView(obj, POSet)
 
 
 def to_coq(case, out):
@@ -76,9 +149,11 @@ def to_coq(case, out):
     else:
         res, unchanged = PL.out_term(['x', PL.ERR_KINDS.get(out[1], 11)]), True
         fin = fin2 = fin_rev = after_a = after_b = '[]'
-    return 'Build_c10_case %s %s %s %s %s %s %s %s %s %s %s %s %s %s %s' % (
+    return 'Build_c10_case %s %s %s %s %s %s %s %s %s %s %s %s %s %s %s %s %s %s' % (
         coq(case['matrix']), coq(list(case['a'])), coq(list(case['b'])), PL.b(case['cache_a']),
-        PL.b(case['cache_b']), PL.ops_term(case['warm_a']), PL.ops_term(case['warm_b']), OPS[case['op']],
+        PL.b(case['cache_b']), PL.ops_term(case['warm_a']), PL.ops_term(case['warm_b']),
+        KINDS[case.get('cls_a', 'P')], KINDS[case.get('cls_b', 'P')],
+        PL.b(case.get('leq_mode', 'same') != 'different'), OPS[case['op']],
         res, PL.b(bool(unchanged)), fin, fin2, fin_rev, after_a, after_b)
 
 
@@ -254,21 +329,74 @@ def grown_prefix_cases():
                                                'op': op, 'kind': kind, 'overlap': 'exhaustive-grown-prefix'}
 
 
+def _sl_ok(m, kind, els):
+    def ext(up):
+        return [i for i in range(len(els)) if not any(
+            j != i and (m[els[i]][els[j]] if up else m[els[j]][els[i]]) for j in range(len(els)))]
+    need = {'U': (True,), 'L': (False,), 'B': (True, False)}[kind]
+    return len(els) > 0 and all(len(ext(up)) == 1 for up in need)
+
+
+def class_case(rng):
+    """Operands of the semilattice classes (first, second or both); the combination often has
+    several maximal / minimal elements or is empty, which a plain POSet must hold all the same.
+    Warm-ups are POSet-level queries (the model starts from the constructor's state)."""
+    for _ in range(200):
+        if rng.random() < 0.6:
+            m, kind = PL.order_bounded(rng, rng.randint(3, 8))
+        else:
+            m, kind = PL.random_order(rng)
+        k = len(m)
+        a, b, mode = operands(rng, k)
+        ca = rng.choice(['P', 'U', 'L', 'B', 'B'])
+        cb = rng.choice(['P', 'U', 'L', 'B', 'B'])
+        if ca == 'P' and cb == 'P':
+            continue
+        if kind == 'bounded':                      # carriers 0 / 1 are the least / greatest
+            for lst, c in ((a, ca), (b, cb)):
+                for e, need in ((1, c in 'UB'), (0, c in 'LB')):
+                    if need and e not in lst and rng.random() < 0.8:
+                        lst.insert(rng.randint(0, len(lst)), e)
+        if (ca == 'P' or _sl_ok(m, ca, a)) and (cb == 'P' or _sl_ok(m, cb, b)):
+            break
+    else:
+        m, kind, a, b, ca, cb, mode = [[True]], 'chain', [0], [0], 'B', 'P', 'equal'
+    k = len(m)
+
+    def w(els):
+        ops = [o for o in warmup(rng, els, k, False) if o[0] in ('cv', 'cl', 'leq', 'fill')]
+        return ops
+    flag = rng.random() < 0.85
+    return {'matrix': m, 'a': a, 'b': b, 'cache_a': flag, 'cache_b': flag if rng.random() < 0.9 else not flag,
+            'warm_a': w(a), 'warm_b': w(b), 'cls_a': ca, 'cls_b': cb, 'op': rng.choice('&|^-'),
+            'kind': kind, 'overlap': 'class-' + mode}
+
+
 def generate(rng, tier):
     cases = []
     if tier == 'thorough':
         cases += list(exhaustive_cases())
         cases += list(grown_prefix_cases())
-        n_rand = 20000
+        n_rand = 12000
     else:
         ex = list(exhaustive_cases())
-        cases += rng.sample(ex, 700)
+        cases += rng.sample(ex, 500)
         gp = list(grown_prefix_cases())
-        cases += rng.sample(gp, 300)
-        cases += rng.sample([c for c in gp if c['warm_a'] and c['warm_b'][0][2]], 500)
-        n_rand = 2200
+        cases += rng.sample(gp, 200)
+        cases += rng.sample([c for c in gp if c["warm_a"] and c["warm_b"][0][2]], 400)
+        n_rand = 1500
     for _ in range(n_rand):
-        cases.append(random_case(rng, heavy=(tier == 'thorough' and rng.random() < 0.3)))
+        c = random_case(rng, heavy=(tier == 'thorough' and rng.random() < 0.3))
+        r = rng.random()               # how the comparison is handed to the two posets
+        c['leq_mode'] = 'same' if r < 0.70 else ('bound' if r < 0.82 else
+                                                 ('callable_eq' if r < 0.94 else 'different'))
+        cases.append(c)
+    for _ in range(n_rand // 5):
+        c = class_case(rng)
+        r = rng.random()
+        c['leq_mode'] = 'same' if r < 0.75 else ('bound' if r < 0.85 else
+                                                 ('callable_eq' if r < 0.95 else 'different'))
+        cases.append(c)
     return cases
 
 
@@ -302,6 +430,8 @@ def stats(case):
     w = case['warm_a'] + case['warm_b']
     pref = (fa[:len(fb)] == fb or fb[:len(fa)] == fa) and bool(fa) and bool(fb)
     return {'order': case.get('kind', ''), 'overlap': case.get('overlap', ''), 'op': case['op'],
+            'classes': case.get('cls_a', 'P') + '/' + case.get('cls_b', 'P'),
+            'comparison': case.get('leq_mode', 'same'),
             'cache': '%s/%s' % (case['cache_a'], case['cache_b']),
             'size_a': len(fa), 'size_b': len(fb), 'warm': min(len(w), 8),
             'warm_adds_fill': min(sum(1 for o in w if o[0] == 'add' and o[2]), 4),
@@ -322,6 +452,16 @@ def shrink(case):
         for i in range(len(case[key])):
             c = dict(case)
             c[key] = case[key][:i] + case[key][i + 1:]
-            if PL.history_valid(c[key], c[wkey], len(c['matrix'])):
+            ck = c.get('cls_' + key, 'P')
+            if PL.history_valid(c[key], c[wkey], len(c['matrix'])) and (ck == 'P' or _sl_ok(c['matrix'], ck, c[key])):
                 out.append(c)
+    for key in ('cls_a', 'cls_b'):
+        if case.get(key, 'P') != 'P':
+            c = dict(case)
+            c[key] = 'P'
+            out.append(c)
+    if case.get('leq_mode', 'same') not in ('same', 'different'):
+        c = dict(case)
+        c['leq_mode'] = 'same'
+        out.append(c)
     return out
